@@ -711,7 +711,8 @@ def random_history(rnd, cls, wide=False, names=False):
                         h.append(call)
             if cls == "valuefree":
                 # (a custom sort has no default value: get_value raises PysmtTypeError before sending)
-                free = [n for n, so in POOL if n not in ideal.declared() and not is_usort(so)]
+                # (rr0 : Real exists only for calls that are meant to fail: the reference solver has no Real)
+                free = [n for n, so in POOL if n not in ideal.declared() and not is_usort(so) and so != "Real"]
                 if free:
                     h.append(("get_value", ("var", rnd.choice(free))))
                     return h
